@@ -16,7 +16,10 @@ def spec_of(ops):
             op["operationId"] = o["operationId"]
         if o.get("bare"):
             op = {k: v for k, v in op.items() if k == "operationId"}
-        s["paths"].setdefault(o["path"], {})[o["method"].lower()] = op
+        if o.get("webhook"):
+            s.setdefault("webhooks", {}).setdefault(o["path"].split("/", 1)[1], {})[o["method"].lower()] = op
+        else:
+            s["paths"].setdefault(o["path"], {})[o["method"].lower()] = op
     return s
 
 
@@ -30,6 +33,8 @@ ID_FAMILIES = [
     ["v1_x_get", "v1_y_get"],
     [None, None, None],
     ["type", "self", "fn"],
+    ["new", "with_client", "with_base_url"],
+    ["storeListOrders", "storeCreateOrder", "storeGetOrder"],
 ]
 PATHS = ["/pets", "/pets/{id}", "/users", "/users/{id}/x", "/a", "/b"]
 METHODS = ["get", "post", "put", "delete", "patch", "head"]
@@ -48,6 +53,8 @@ def rand_ops(r):
             continue
         oid = fam[i % len(fam)] if r.random() < 0.85 else r.choice([None, "misc%d" % i])
         ops.append({"method": m.upper(), "path": p, "operationId": oid})
+    if r.random() < 0.35:
+        ops.append({"method": "POST", "path": "webhooks/hook%d" % r.randint(0, 1), "operationId": r.choice(["notifyOrderShipped", "onEvent", fam[0] or "hooked"]), "webhook": True})
     return ops
 
 
